@@ -22,6 +22,11 @@ DEFAULT_EXCLUDED_CODEMODS = [
 ]
 
 
+def _compile_pattern(pattern: str) -> re.Pattern:
+    """Compile a codemod id pattern in which `*` is the only wildcard."""
+    return re.compile(".*".join(re.escape(part) for part in pattern.split("*")))
+
+
 @dataclass
 class CodemodCollection:
     """A collection of codemods that all share the same origin and documentation."""
@@ -80,7 +85,7 @@ class CodemodRegistry:
         if codemod_exclude and not codemod_include:
             base_codemods = {}
             patterns = [
-                re.compile(exclude.replace("*", ".*"))
+                _compile_pattern(exclude)
                 for exclude in codemod_exclude
                 if "*" in exclude
             ]
@@ -88,7 +93,7 @@ class CodemodRegistry:
 
             for codemod in self.codemods:
                 if codemod.id in names or any(
-                    pat.match(codemod.id) for pat in patterns
+                    pat.fullmatch(codemod.id) for pat in patterns
                 ):
                     continue
 
@@ -101,8 +106,10 @@ class CodemodRegistry:
         matched_codemods = []
         for name in codemod_include:
             if "*" in name:
-                pat = re.compile(name.replace("*", ".*"))
-                pattern_matches = [code for code in self.codemods if pat.match(code.id)]
+                pat = _compile_pattern(name)
+                pattern_matches = [
+                    code for code in self.codemods if pat.fullmatch(code.id)
+                ]
                 matched_codemods.extend(pattern_matches)
                 if not pattern_matches:
                     logger.warning(
